@@ -29,7 +29,7 @@ theorem b64Decode_quad (a b c d : Char) (rest : Str) (hc : c â‰  '=') (hd : d â‰
   | nil =>
     simp only [b64Decode, hc, hd, false_and, if_false]
     cases b64Val a <;> cases b64Val b <;> cases b64Val c <;> cases b64Val d <;> simp
-  | cons e t => rw [b64Decode]
+  | cons e t => rw [b64Decode]; simp
 
 theorem u8_ofNat_toNat (x : UInt8) : UInt8.ofNat x.toNat = x := by simp
 
